@@ -37,3 +37,26 @@ Example C20_example :
   fold_left apply_preqs [mkPR [(10000, 5); (9999, 0)] [0; 7] [1000; 1001; 18446744073709551615]] (mkBP 1 10000 0 0)
   = mkBP 7 18446744073709551615 9999 0.
 Proof. split; [unfold params_safe, c_MaxTaxBP, c_DustTxoutAmount; cbn; lia | vm_compute; reflexivity]. Qed.
+
+(* the initial parameters come from a genesis file accepted by Params.Validate (modelled by params_validate,
+   compared with the real function on boundary tuples by the params family): such parameters are safe in the
+   sense above except that the rate may be exactly 100 %; in every case the tax of a deposit never exceeds
+   its value *)
+From Coq Require Import ZifyBool ZifyN.
+Theorem C20_genesis_validation p :
+  params_validate p = true ->
+  bp_rate p <= c_MaxTaxBP /\ c_DustTxoutAmount <= bp_min p /\ 1 <= bp_conf p /\
+  (bp_rate p <> c_MaxTaxBP -> params_safe p) /\ forall v, tax_of p v <= v.
+Proof.
+  unfold params_validate, params_safe, c_MaxTaxBP, c_DustTxoutAmount. intros Hv.
+  assert (H1 : 1000 <= bp_min p /\ 1 <= bp_conf p /\ bp_rate p <= 10000).
+  { destruct (0 <? bp_rate p) eqn:E; lia. }
+  destruct H1 as (Hm & Hc & Hr). repeat split; try lia.
+  intros v. unfold tax_of, c_MaxTaxBP.
+  destruct ((0 <? bp_rate p) && (10000 <? v)); [|lia].
+  assert (Ht : v / 10000 * bp_rate p <= v).
+  { transitivity (v / 10000 * 10000); [apply N.mul_le_mono_l; exact Hr|]. rewrite N.mul_comm. apply N.mul_div_le. discriminate. }
+  destruct ((0 <? bp_cap p) && (bp_cap p <? v / 10000 * bp_rate p)) eqn:Ec; [|exact Ht].
+  apply andb_true_iff in Ec. destruct Ec as [_ Ec]. apply N.ltb_lt in Ec. lia.
+Qed.
+Print Assumptions C20_genesis_validation.
